@@ -240,3 +240,50 @@ Theorem C17_appiterrange_slice : forall chunks start stop,
   (start < stop)%nat -> concat (air chunks start stop) = slice (concat chunks) start stop.
 Proof. exact air_slice_exact. Qed.
 Print Assumptions C17_appiterrange_slice.
+
+(* ---- the Range header TEXT layer (Model/C17_rangetext.v over C06's Model/C06_ByteRange.v) ---- *)
+Require Webob.Model.C17_rangetext Webob.Proofs.C17_rangetext.
+Module RT := Webob.Model.C17_rangetext.
+Module RTP := Webob.Proofs.C17_rangetext.
+
+(* a header text that parses to a satisfiable single range: 206, body exactly content[start:stop],
+   Content-Range text "bytes start-(stop-1)/len" as ContentRange.__str__ renders it, Content-Length stop-start *)
+Theorem C17_text_range_206 : forall content k h s e start stop,
+  kind_ok k content ->
+  RT.req_range h = Some (RT.B.Range s e) ->
+  range_for_length s e (Z.of_nat (length content)) = Some (start, stop) ->
+  RT.serve_range_text k content h =
+    Some (RT.mkT 206 (Some (RTP.cr_text_206 start stop (Z.of_nat (length content))))
+              (RT.B.int_str (stop - start))
+              (Some (slice content (Z.to_nat start) (Z.to_nat stop)))) /\
+  (0 <= start < stop)%Z /\ (stop <= Z.of_nat (length content))%Z.
+Proof. exact RTP.text_range_206. Qed.
+Print Assumptions C17_text_range_206.
+
+Example C17_text_range_206_hyps :
+  RT.req_range (Some [98; 121; 116; 101; 115; 61; 49; 45; 50]%N) = Some (RT.B.Range 1 (Some 3%Z)) /\
+  range_for_length 1 (Some 3%Z) (Z.of_nat (length [10; 11; 12; 13]%N)) = Some (1%Z, 3%Z).
+Proof. split; reflexivity. Qed.
+
+(* EVERY header text on EVERY file: the full file with 200 (text is not a valid single range), a 416 whose
+   body is a text that does not depend on the file's bytes, or a 206 with a slice inside the file *)
+Theorem C17_text_range_total_partial : forall content k h, kind_ok k content ->
+  let len := Z.of_nat (length content) in
+  (RT.req_range h = None /\
+   RT.serve_range_text k content h = Some (RT.mkT 200 None (RT.B.int_str len) (Some content)))
+  \/ (exists s e, RT.req_range h = Some (RT.B.Range s e) /\ range_for_length s e len = None /\
+        RT.serve_range_text k content h =
+          Some (RT.mkT 416 (Some (RTP.cr_text_416 len)) (RT.B.int_str (Z.of_nat (length (RT.body_416 (RT.B.Range s e)))))
+                    (Some (RT.body_416 (RT.B.Range s e)))))
+  \/ (exists s e start stop, RT.req_range h = Some (RT.B.Range s e) /\
+        range_for_length s e len = Some (start, stop) /\ (0 <= start < stop)%Z /\ (stop <= len)%Z /\
+        RT.serve_range_text k content h =
+          Some (RT.mkT 206 (Some (RTP.cr_text_206 start stop len)) (RT.B.int_str (stop - start))
+                    (Some (slice content (Z.to_nat start) (Z.to_nat stop))))).
+Proof. exact RTP.text_range_total. Qed.
+Print Assumptions C17_text_range_total_partial.
+
+(* no header text makes the application raise *)
+Theorem C17_text_range_never_raises : forall content k h, RT.serve_range_text k content h <> None.
+Proof. exact RTP.text_range_never_raises. Qed.
+Print Assumptions C17_text_range_never_raises.
